@@ -209,7 +209,7 @@ def mono_source(small=False):
     return "\n".join(lines), n
 
 
-def mono_matrix(chk, rule='R19.3', small=False):
+def mono_matrix(chk, rule='R19.3', small=False, cast_name='cast_unchecked'):
     """build (not run) a downstream crate that instantiates interp_array_into for the whole matrix and let the
     driver list every monomorphic cast_unchecked::<A, B> with the TypeId guard types of its caller instance"""
     chk.rule(rule, "mono-level cross-check: in every monomorphic instance of interp_array_into whose guard types are equal, every cast has A == B; "
@@ -230,7 +230,7 @@ def mono_matrix(chk, rule='R19.3', small=False):
     fast = slow = 0
     for i in insts:
         tids = [c['gargs'][0] for c in i.get('calls', []) if c['path'].endswith('TypeId::of')]
-        casts = [c for c in i.get('calls', []) if c['path'].endswith('cast_unchecked')]
+        casts = [c for c in i.get('calls', []) if c['path'].split('::<')[0].endswith('::' + cast_name) or c['path'].endswith(cast_name)]
         if len(tids) != 2:
             chk.ob(rule, "instance %s<%s> has exactly one TypeId guard (found %d TypeId::of calls)" % (i['path'], ', '.join(i['gargs'])[:120], len(tids)), False,
                    '', 'mono-guard-shape')
